@@ -690,6 +690,8 @@ pub const F64_BITS: &[u64] = &[
     0x47ef_ffff_e000_0000, 0x47ef_ffff_e000_0001, 0x47ef_ffff_efff_ffff, 0x47ef_ffff_f000_0000, 0x47f0_0000_0000_0000,
     0x47ef_ffff_e091_ff3d, 0x36a0_0000_0000_0000, 0x3690_0000_0000_0000, 0x3690_0000_0000_0001, 0x3810_0000_0000_0000,
     0x380f_ffff_ffff_ffff, 0x3ff0_0000_1000_0000, 0x3ff0_0000_3000_0000, 0x3ff0_0000_1000_0001,
+    // inside the binade after f32::MAX (exponent field exactly 255 with a non-zero fraction), and the next one
+    0x47f8_0000_0000_0000, 0xc7f8_0000_0000_0000, 0x47ff_ffff_ffff_ffff, 0x4800_0000_0000_0000, 0x4808_0000_0000_0000,
 ];
 
 fn g_f32(rng: &mut Rng) -> f32 {
@@ -998,6 +1000,132 @@ fn mentions_unmodelled(t: &T) -> bool {
     (t.1.is_empty() && (t.0 == "i22" || t.0 == "i25")) || t.1.iter().any(mentions_unmodelled)
 }
 
+
+/// small-scope enumeration: every variant type id x every kind of body at and around its limits; the index
+/// fields of node ids / qualified names / data values at and around their limits; structs in positional form
+fn boundary_ops() -> Vec<String> {
+    let k = |s: &str| shex(s);
+    let mut out = vec![];
+    let var = |t: i64, body: Option<&str>| match body {
+        Some(b) => format!("de var o({},i{},{},{})", shex("Type"), t, shex("Body"), b),
+        None => format!("de var o({},i{})", shex("Type"), t),
+    };
+    // integer kinds
+    let ranges: [(i64, i128, i128); 6] =
+        [(2, -128, 127), (3, 0, 255), (4, -32768, 32767), (5, 0, 65535), (6, -2147483648, 2147483647), (7, 0, 4294967295)];
+    for (t, lo, hi) in ranges {
+        let mut vals = vec![lo - 2, lo - 1, lo, lo + 1, -1, 0, 1, hi - 1, hi, hi + 1, hi + 2, i64::MIN as i128, u64::MAX as i128];
+        vals.dedup();
+        for v in vals {
+            out.push(var(t, Some(&format!("i{}", v))));
+        }
+        for b in ["d3ff8000000000000", "d3ff0000000000000", "n", "t", "a()", "o()"] {
+            out.push(var(t, Some(b)));
+        }
+        out.push(var(t, Some(&shex("1"))));
+        out.push(var(t, None));
+    }
+    // 64-bit integers as strings
+    for t in [8i64, 9] {
+        for sv in [
+            "0", "1", "-1", "+5", "-0", "9223372036854775807", "9223372036854775808", "-9223372036854775808", "-9223372036854775809",
+            "18446744073709551615", "18446744073709551616", "", "+", "-", "-x", "1.0", " 1", "1e3", "0x10",
+        ] {
+            out.push(var(t, Some(&shex(sv))));
+        }
+        out.push(var(t, Some("i5")));
+        out.push(var(t, None));
+    }
+    // floats: special strings, integers, and the patterns around the f32 limits
+    for t in [10i64, 11] {
+        for sv in ["Infinity", "-Infinity", "NaN", "infinity", "inf", "", "1.5"] {
+            out.push(var(t, Some(&shex(sv))));
+        }
+        for iv in ["i0", "i1", "i-1", "i16777216", "i16777217", "i9007199254740993", "i18446744073709551615", "i-9223372036854775808"] {
+            out.push(var(t, Some(iv)));
+        }
+        for b in F64_BITS {
+            if f64::from_bits(*b).is_finite() {
+                out.push(var(t, Some(&format!("d{:016x}", b))));
+            }
+        }
+        out.push(var(t, Some("n")));
+        out.push(var(t, Some("t")));
+        out.push(var(t, None));
+    }
+    // every other type id with a missing body, a null body and a body of the wrong kind; unknown ids; Dimensions
+    for t in (0..=27i64).filter(|t| *t != 22 && *t != 25) {
+        out.push(var(t, None));
+        out.push(var(t, Some("n")));
+        out.push(var(t, Some("i5")));
+        out.push(var(t, Some(&shex("x"))));
+        out.push(var(t, Some("o()")));
+        out.push(var(t, Some("a()")));
+        out.push(format!("de var o({},i{},{},a(i1))", k("Type"), t, k("Dimensions")));
+        out.push(format!("de var a(i{},t,n)", t));
+    }
+    out.push(format!("de var o({},n)", k("Type")));
+    out.push(format!("de var o({},{})", k("Type"), k("1")));
+    out.push("de var n".into());
+    out.push("de var o()".into());
+    out.push(format!("de var o({},i4294967296)", k("Type")));
+    out.push(format!("de var o({},i-1)", k("Type")));
+    // index fields
+    for ns in ["i0", "i1", "i65535", "i65536", "i70000", "i-1", "d3ff0000000000000", "n"] {
+        out.push(format!("de nid o({},i5,{},{})", k("Id"), k("Namespace"), ns));
+        out.push(format!("de xnid o({},i5,{},{})", k("Id"), k("Namespace"), ns));
+        out.push(format!("de qn o({},{},{},{})", k("Uri"), ns, k("Name"), k("x")));
+        out.push(format!("de dv o({},{})", k("SourcePicoseconds"), ns));
+        out.push(format!("de dv o({},{})", k("ServerPicoseconds"), ns));
+    }
+    out.push(format!("de nid o({},i5,{},{})", k("Id"), k("Namespace"), k("urn:x")));
+    out.push(format!("de xnid o({},i5,{},{})", k("Id"), k("Namespace"), k("urn:x")));
+    out.push(format!("de xnid o({},i5,{},{})", k("Id"), k("Namespace"), k("")));
+    for su in ["i0", "i1", "i4294967295", "i4294967296", "i-1", k("x").as_str()] {
+        out.push(format!("de xnid o({},i5,{},{})", k("Id"), k("ServerUri"), su));
+    }
+    // identifier kinds x (ok, empty, malformed, wrong kind), numeric truncation
+    for (t, ok, bad) in [(1, "x", ""), (2, "f9e561f3-351c-47a2-b969-b8d6d7226fee", "zz"), (3, "AQID", "A")] {
+        for id in [k(ok), k(""), k(bad), "i5".to_string(), "n".to_string()] {
+            out.push(format!("de nid o({},i{},{},{})", k("Type"), t, k("Id"), id));
+        }
+    }
+    out.push(format!("de nid o({},{})", k("Id"), k("f9e561f3351c47a2b969b8d6d7226fee")));
+    out.push(format!("de guid {}", k("f9e561f3351c47a2b969b8d6d7226fee")));
+    out.push(format!("de guid {}", k("{f9e561f3-351c-47a2-b969-b8d6d7226fee}")));
+    out.push(format!("de guid {}", k("urn:uuid:f9e561f3-351c-47a2-b969-b8d6d7226fee")));
+    for id in ["i0", "i4294967295", "i4294967296", "i18446744073709551615", "i-1", "d3ff0000000000000"] {
+        out.push(format!("de nid o({},{})", k("Id"), id));
+        out.push(format!("de nid o({},i0,{},{})", k("Type"), k("Id"), id));
+    }
+    for t in ["i4", "i-1", "i4294967296", "n", k("1").as_str()] {
+        out.push(format!("de nid o({},{},{},i5)", k("Type"), t, k("Id")));
+    }
+    out.push("de nid o()".into());
+    // positional (array) forms of every struct
+    out.push("de nid a(n,i5,n)".into());
+    out.push("de nid a(i1,s78,i2)".into());
+    out.push("de nid a(n,i5)".into());
+    out.push("de xnid a(n,i5,n,i7)".into());
+    out.push("de xnid a(n,i5,n)".into());
+    out.push("de qn a(i1,s78)".into());
+    out.push("de qn a(i1)".into());
+    out.push("de lt a(s656e,s78)".into());
+    out.push("de lt a(n,n)".into());
+    out.push("de lt a(n)".into());
+    out.push(format!("de dv a(o({},i1,{},t),i0,n,i1,n,i65535)", k("Type"), k("Body")));
+    out.push("de dv a(n,n,n,n,n)".into());
+    out.push("de dv n".into());
+    out.push("de dv s78".into());
+    // status codes
+    for sc in ["i0", "i1", "i4294967295", "i4294967296", "i-1", "d3ff0000000000000", "n", "s30"] {
+        out.push(format!("de sc {}", sc));
+        out.push(format!("de dv o({},{})", k("Status"), sc));
+        out.push(var(19, Some(sc)));
+    }
+    out
+}
+
 impl Prop for C42 {
     fn id(&self) -> &'static str {
         "C42"
@@ -1020,6 +1148,9 @@ impl Prop for C42 {
         }
         for s in STRINGS {
             out.push(format!("de dt {}", shex(s)));
+        }
+        for op in boundary_ops() {
+            out.push(op);
         }
         for _ in 0..n {
             out.push(format!("reset {}", mask));
